@@ -23,7 +23,8 @@ namespace Vector {
 				if (tmp == ObjectSignature) {
 					signature = tmp;
 				} else {
-					if (is.eof()) {
+					/* any failure ends the search: a stream that was closed meanwhile fails without reaching its end */
+					if (!is.good()) {
 						throw Exception("ObjectHeaderBase::read(): End of File.");
 					}
 
